@@ -81,8 +81,15 @@ pub fn radius() -> BoxedStrategy<(f64, String)> {
 
 /// (depth, delta) such that the output stays small: radius * nside(depth + delta) <= budget
 pub fn depth_for(radius: f64, budget: f64) -> BoxedStrategy<(u8, u8)> {
-  let maxd = ((budget / radius).log2().floor() as i32).max(0).min(29) as u8;
-  (prop_oneof![3 => Just(maxd), 2 => Just(maxd.saturating_sub(1)), 2 => Just(maxd.saturating_sub(3)), 3 => 0u8..=maxd], prop_oneof![3 => Just(0u8), 2 => 1u8..=2, 1 => 3u8..=4])
+  // r >= pi: the answer is the 12 base cells whatever the depth
+  let maxd = if radius >= PI { 29 } else { ((budget / radius).log2().floor() as i32).max(0).min(29) as u8 };
+  // the depth at which the algorithm switches from "centre cell + neighbours" to the recursion
+  let t = thresholds();
+  let ds = (0..30usize).rev().find(|k| radius < t[*k]).unwrap_or(0) as u8;
+  (
+    prop_oneof![3 => Just(maxd), 2 => Just(maxd.saturating_sub(1)), 2 => Just(maxd.saturating_sub(3)), 3 => 0u8..=maxd, 1 => Just(ds.min(maxd)), 1 => Just((ds + 1).min(maxd))],
+    prop_oneof![6 => Just(0u8), 4 => 1u8..=2, 2 => 3u8..=4, 1 => 5u8..=29],
+  )
     .prop_map(move |(dd, delta)| {
       // dd is the computation depth; the requested depth is dd - delta
       let delta = delta.min(dd);
